@@ -7,5 +7,6 @@ mkdir -p .build .work evidence/replay
 (cd lean && lake build Liquid Proofs liquid_model)
 cp /repo/go.sum harness/go.sum 2>/dev/null || true
 (cd harness && go build -tags verif -o ../.build/harness .)
-if [ -d translate ]; then (cd translate && go build -o ../.build/translate .); fi
+if [ -f translate/go.mod ]; then (cd translate && go build -o ../.build/translate .); fi
+for d in translate/*/; do if [ -f "$d/go.mod" ]; then (cd "$d" && go build -o "../../.build/translate-$(basename "$d")" .); fi; done
 echo setup-ok
